@@ -30,6 +30,8 @@ def trace_cfgs(quick):
         {'name': 'euler-1phase-long-remesh', 'phases': ('B1',), 'iterator': 'euler', 'segments': [2e5, 3e5], 'bins': (1e-10, 2e-9, 60, 40, 80)},
         {'name': 'euler-2phase-split', 'phases': ('B1', 'B2'), 'gammas': [0.15, 0.12], 'iterator': 'euler', 'segments': [300.0, 1500.0]},
         {'name': 'rk4-1phase', 'phases': ('B1',), 'iterator': 'rk4', 'segments': [40.0]},
+        {'name': 'euler-grain-boundary', 'phases': ('B1',), 'iterator': 'euler', 'segments': [2e3], 'site': 'grain boundaries', 'gamma': 0.22},
+        {'name': 'euler-grain-corner-edge', 'phases': ('B1', 'B2'), 'gammas': [0.25, 0.2], 'sites': ['grain corners', 'grain edges'], 'iterator': 'euler', 'segments': [2e3]},
         {'name': 'euler-heat-dissolve', 'phases': ('B1',), 'iterator': 'euler', 'segments': [3e3, 4e3], 'T': ([0, 0.8, 1.2, 2.0], [700.0, 700.0, 900.0, 900.0])},
     ]
     if not quick:
@@ -154,7 +156,12 @@ def run(ctx):
     hits = []
     terms, keys = [], []
     for cfg in trace_cfgs(quick):
-        tr = kwn_trace.run_binary(cfg)
+        try:
+            tr = kwn_trace.run_binary(cfg)
+        except kwn_trace.RunTimeout as e:
+            ctx.violation('run_terminates', {'site': SITE, 'cls': 'run did not finish'}, {'kind': 'trace', 'run': cfg['name'], 'observed': str(e)},
+                          'precipitation run %s did not finish: %s' % (cfg['name'], e))
+            continue
         ctx.cov['traces_validated_against_impl'] += 1
         ns = len(tr.steps)
         remesh = sum(1 for s in tr.steps if s['before'] is not None and any(not grid_same(s['before'], s['after'], p) for p in range(len(tr.model.phases))))
